@@ -227,6 +227,33 @@ def strip(nd: tg.Node) -> tg.Node:
     return tg.node(rec(tg._totuple(nd.spec)))
 
 
+# ---- stock conditions x combinators x boundary values, enumerated ----------------------------------------------
+
+STOCK = [('Positive',), ('Negative',), ('NonPositive',), ('NonNegative',), ('Finite',), ('val_range', 0, 1), ('val_range', None, 0), ('user_gt', 0)]
+WRAPS = ['c', 'not', 'notnot', 'c-and-not', 'c-or-not', 'all-not', 'any-not']
+TABLE_VALUES = [0, 1, -1, 2, 0.0, -0.0, 1.0, -1.0, 0.5, math.nextafter(0.0, 1.0), math.nextafter(0.0, -1.0), math.nextafter(1.0, 2.0),
+                float('inf'), float('-inf'), float('nan')]
+
+
+def table_cases(shard: int, nshards: int) -> t.Iterator[t.Any]:
+    i = 0
+    for ci in range(len(STOCK)):
+        for w in WRAPS:
+            for vi in range(len(TABLE_VALUES)):
+                for inner in ('int', 'float'):
+                    if i % nshards == shard:
+                        yield [ci, w, vi, inner]
+                    i += 1
+
+
+def check_table(case: t.Any, ctx: Ctx) -> None:
+    (ci, w, vi, inner) = case
+    c = STOCK[ci]
+    expr = {'c': c, 'not': ('not', c), 'notnot': ('not', ('not', c)), 'c-and-not': ('and', c, ('not', c)), 'c-or-not': ('or', c, ('not', c)),
+            'all-not': ('all', (('not', c), ('true',))), 'any-not': ('any', (('not', c),))}[w]
+    check([('ann', ('s', inner), (expr,)), TABLE_VALUES[vi], TABLE_VALUES[vi]], ctx)
+
+
 # ---- the shipped aliases of pane.types ----------------------------------------------------------------------
 
 ALIASES = {
@@ -289,4 +316,5 @@ def suites(tier: str) -> t.List[Suite]:
     return [
         Suite('conditions', check, strategy=cases, examples=10000 if big else 800, budget_s=480 if big else 40, render=render),
         Suite('shipped-aliases', check_alias, cases=alias_cases, exhaustive=True, budget_s=60),
+        Suite('stock-table', check_table, cases=table_cases, exhaustive=True, budget_s=120, render=lambda c: {'condition': STOCK[c[0]], 'wrapped': c[1], 'value': repr(TABLE_VALUES[c[2]]), 'inner': c[3]}),
     ]
